@@ -43,7 +43,13 @@ def concrete_oracle(obs):
 
 def replay(n_waiters, second, status0, sched, expected_bad, meta, tries=30):
     # only operations that carry a hook point in the real code can be ordered by the turn-stile
-    seq = ['%d:%s' % (t, lbl) for (_, t, _, lbl, _) in sched if lbl in HOOKED]
+    def hook_label(lbl):
+        # the hook point in front of the status write in `ActorProperties::set_status` is named after the operation the pinned source uses
+        # (`status.fetch_max`); a changed tree may perform another atomic write at that place
+        if lbl not in HOOKED and lbl.startswith('status.') and lbl.split('.', 1)[1] in ('swap', 'store', 'fetch_or', 'fetch_and', 'fetch_min', 'compare_exchange'):
+            return 'status.fetch_max'
+        return lbl
+    seq = ['%d:%s' % (t, hook_label(lbl)) for (_, t, _, lbl, _) in sched if hook_label(lbl) in HOOKED]
     obs = run_native(n_waiters, second, status0, seq)
     bad = concrete_oracle(obs)
     used = seq
